@@ -146,7 +146,12 @@ func (s *scopedWalker) walkFn(path string, d fs.DirEntry, err error) error {
 	// st.logger.Printf("flags for %q: %v", name, flags)
 
 	if s.excl.matches(name) {
-		return filepath.SkipDir
+		if info.Mode().IsDir() {
+			return filepath.SkipDir // leave out the whole subtree
+		}
+		// For a non-directory, SkipDir would skip the remaining entries
+		// of the parent directory.
+		return nil
 	}
 
 	s.fileList.Files = append(s.fileList.Files, file{
